@@ -29,6 +29,9 @@ template void CDNS::CdnsEncoder::rotate_output<int>(const int&);
 '''
 
 
+FILTERS = ['CDNS::', 'get_readable_']
+
+
 class AstError(Exception):
     pass
 
@@ -36,7 +39,7 @@ class AstError(Exception):
 def dump(repo=None):
     """Return list of top-level JSON objects of the CDNS:: filtered dump."""
     repo = repo or REPO
-    key = src_hash(repo) + hashlib.sha256(INSTANTIATE.encode()).hexdigest()[:6]
+    key = src_hash(repo) + hashlib.sha256((INSTANTIATE + repr(FILTERS)).encode()).hexdigest()[:6]
     os.makedirs(CACHE, exist_ok=True)
     pk = os.path.join(CACHE, "ast-%s.pickle" % key)
     if os.path.exists(pk):
@@ -54,30 +57,36 @@ def dump(repo=None):
             f.write('#include "%s"\n' % p)
         # explicit instantiations of the member templates the checks lower (forces clang to instantiate the *real* bodies)
         f.write(INSTANTIATE)
-    cmd = ["clang++", "-std=c++14", "-msse4", "-fsyntax-only", "-I", os.path.join(repo, "src"),
-           "-Xclang", "-ast-dump=json", "-Xclang", "-ast-dump-filter=CDNS::", unity]
-    r = subprocess.run(cmd, stdout=subprocess.PIPE, stderr=subprocess.PIPE)
+    objs = []
+    # the library lives in namespace CDNS; the two file-scope helpers of interface.cpp (text renderers) are dumped by a second filter
+    for flt in FILTERS:
+        cmd = ["clang++", "-std=c++14", "-msse4", "-fsyntax-only", "-I", os.path.join(repo, "src"),
+               "-Xclang", "-ast-dump=json", "-Xclang", "-ast-dump-filter=" + flt, unity]
+        r = subprocess.run(cmd, stdout=subprocess.PIPE, stderr=subprocess.PIPE)
+        if r.returncode != 0:
+            try:
+                os.unlink(unity)
+            except OSError:
+                pass
+            raise AstError("clang failed on the working tree:\n" + r.stderr.decode()[-3000:])
+        s = r.stdout.decode()
+        dec = json.JSONDecoder()
+        i = 0
+        n = len(s)
+        while i < n:
+            while i < n and s[i] in " \n\r\t":
+                i += 1
+            if i >= n:
+                break
+            if s[i] != "{":
+                i = s.index("\n", i) + 1
+                continue
+            o, i = dec.raw_decode(s, i)
+            objs.append(o)
     try:
         os.unlink(unity)
     except OSError:
         pass
-    if r.returncode != 0:
-        raise AstError("clang failed on the working tree:\n" + r.stderr.decode()[-3000:])
-    s = r.stdout.decode()
-    dec = json.JSONDecoder()
-    i = 0
-    n = len(s)
-    objs = []
-    while i < n:
-        while i < n and s[i] in " \n\r\t":
-            i += 1
-        if i >= n:
-            break
-        if s[i] != "{":
-            i = s.index("\n", i) + 1
-            continue
-        o, i = dec.raw_decode(s, i)
-        objs.append(o)
     # keep cache small: drop old pickles
     for old in glob.glob(os.path.join(CACHE, "ast-*.pickle")):
         try:
